@@ -1,6 +1,7 @@
 import Tahoe.Base.DrvUtil
 import Tahoe.Immutable.FetchShow
 import Tahoe.Immutable.Segmentation
+import Tahoe.Immutable.SysFinder
 /-! Driver for C46 (DownloadNode segment queue over the SegmentFetcher model).
     `node MODE K NUMSEGS BADSEGS ev ev …`  MODE ∈ fixed|unfixed, BADSEGS = comma list of segment
     numbers whose decode / ciphertext-hash check fails (`-` = none); ev ∈
@@ -175,6 +176,56 @@ def runSysEvs (y : Sys) (reg : List Share) (acc : List String) : List String →
         | _ => reg
       runSysEvs y' reg' (sysDigest y' :: acc) rest
 
+/-! `sysf K NUMSEGS BADSEGS FILESIZE SEGSIZE GUESS MAXOUT SERVERS ev …` — composed system with the real finder; ev ∈
+      FL | FR:REQ:SHNUMS | FE:REQ | FO:REQ   finder turn / get_buckets answer / failure / overdue timer
+      M                                      the next queued got_shares / no_more_shares call reaches the node
+      everything else: a `sys` event (R, d, X, P, U, T, u, s, l)
+    Output after every event: the `sys` digest + `|finder calls|running.hungry.exhausted|pending|overdue|timers|floops|mail`. -/
+def parseSysFEv (reg : List Share) (t : String) : Option SysFEv :=
+  match t.splitOn ":" with
+  | ["FL"] => some .fturn
+  | ["FR", q, l] => do pure (.fresponse (← q.toNat?) (← parseNatList l))
+  | ["FE", q] => do pure (.ferror (← q.toNat?))
+  | ["FO", q] => do pure (.foverdue (← q.toNat?))
+  | ["M"] => some .mail
+  | ["a", _] => none
+  | ["n"] => none
+  | _ => (parseSysEv reg t).map SysFEv.sys
+
+def showFOut2 : Tahoe.Finder.FOut → String
+  | .send srv req => s!"send={srv}.{req}"
+  | .gotShares srv shnums => s!"shares={srv}:" ++ "+".intercalate (shnums.map toString)
+  | .noMoreShares => "nomore"
+  | .exc => "exc"
+
+def sysfDigest (z : SysF) : String :=
+  let f := z.finder
+  let fcalls := if f.out.isEmpty then "-" else ",".intercalate (f.out.map showFOut2)
+  "|".intercalate [sysDigest z.sys, fcalls, b2s f.running ++ "." ++ b2s f.hungry ++ "." ++ b2s f.exhausted,
+    showIds (f.pending.map (·.1)), showIds (sortNat f.overdue), showIds (sortNat f.timers), toString f.loops,
+    toString z.mail.length]
+
+def allShares (z : SysF) : List Share :=
+  z.mail.flatMap (fun m => match m with
+    | .gotShares l => l
+    | _ => [])
+
+def runSysFEvs (z : SysF) (reg : List Share) (acc : List String) : List String → Option (List String)
+  | [] => some acc.reverse
+  | t :: rest =>
+    match parseSysFEv reg t with
+    | none => none
+    | some e =>
+      let z0 := { z with finder := { z.finder with out := [] },
+                         sys := { z.sys with reads := z.sys.reads.map (fun r => { r with seg := { r.seg with out := [] } }) } }
+      let z' := sysfStep z0 e
+      let z'' := match e with                 -- a finder step leaves the node's call log of the previous step: clear for printing
+        | .sys _ => z'
+        | .mail => z'
+        | _ => { z' with sys := { z'.sys with node := { z'.sys.node with log := [] } } }
+      let reg' := reg ++ (allShares z'').filter (fun sh => !(reg.contains sh))
+      runSysFEvs z'' reg' (sysfDigest z'' :: acc) rest
+
 def handle : List String → String
   | "node" :: mode :: k :: ns :: bad :: evs =>
     match (if mode == "fixed" then some true else if mode == "unfixed" then some false else none),
@@ -184,6 +235,14 @@ def handle : List String → String
       | some outs => if outs.isEmpty then "-" else ";".intercalate outs
       | none => "bad-op"
     | _, _, _, _ => "bad-op"
+  | "sysf" :: k :: ns :: bad :: fs :: ss :: gs :: mx :: srv :: evs =>
+    match k.toNat?, ns.toNat?, parseNatList bad, fs.toNat?, ss.toNat?, gs.toNat?, mx.toNat?, parseNatList srv with
+    | some k, some ns, some bad, some fs, some ss, some gs, some mx, some srv =>
+      match runSysFEvs { sys := { node := { k := k, numSegs := ns, badSegs := bad }, filesize := fs, segsize := ss, guess := gs },
+                         finder := { maxOutstanding := mx, servers := srv } } [] [] evs with
+      | some outs => if outs.isEmpty then "-" else ";".intercalate outs
+      | none => "bad-op"
+    | _, _, _, _, _, _, _, _ => "bad-op"
   | "sys" :: k :: ns :: bad :: fs :: ss :: gs :: evs =>
     match k.toNat?, ns.toNat?, parseNatList bad, fs.toNat?, ss.toNat?, gs.toNat? with
     | some k, some ns, some bad, some fs, some ss, some gs =>
